@@ -121,7 +121,8 @@ def build_unit(unit, workcopy):
         elif kind == "fn":
             out.append(emit_fn(src, item) + "\n\n")
         elif kind in ("impl", "trait") and "members" in item:
-            loc = vx.locate(src, item["path"])
+            # several impl blocks may share a header: take the one that contains the first member
+            loc = vx.locate(src, item["path"] + " / " + item["members"][0]["path"])["parents"][0]
             toks = src.toks
             header = src.text[toks[loc["kw"]].pos:toks[loc["brace"]].end]
             for (pat, repl, why) in item.get("header_subst", []):
